@@ -21,7 +21,7 @@ REQUIRED = ['C02.findPeaks_smul_pos', 'C02.findPeaks_smul_neg', 'C02.findPeaks_r
             'C02.sdMetric_smul', 'C02.rillingStop_smul', 'C02.fixedStop_indep',
             'C02.getNextImf_smul', 'C02.getNextImf_smul_envelope', 'C02.getNextImf_reverse', 'C02.getNextImf_reverse_envelope',
             'C02.sift_smul', 'C02.sift_smul_thr_silent', 'C02.sift_smul_envelope', 'C02.sift_reverse', 'C02.sift_reverse_envelope',
-            'C02.maskSift_ratio_smul_pos', 'C02.maskSift_ratio_smul_neg', 'C02.maskSift_pipeline_smul']
+            'C02.maskSift_ratio_smul_pos', 'C02.maskSift_ratio_smul_neg', 'C02.maskSift_ratio_smul_neg_cos', 'C02.maskSift_pipeline_smul']
 TRUSTED = ['the theorems are about the models EmdModel.Extrema (tied to the code by the C05 ops PADEXT / ENV, here run on c*x and on reversed x), '
            'EmdModel.Sift (C04 / C01 ops GNI / SIFT) and EmdModel.Mask (C07 op MASKSIFT), the latter three run on x, on c*x with sift_thresh '
            'scaled by |c| and on reversed x; the model answers for the transformed inputs are compared with the implementation AND with the '
@@ -42,8 +42,10 @@ ASSUMPTIONS = ['Homogeneous: scipy splrep/splev, pchip, PchipInterpolator throug
                'np.std(c*x) = |c|*np.std(x) (validator std_abs_homogeneous; used by the mask-sift law)',
                'EnergySmul / EnergyRev: the energy difference in dB is a ratio of energies (scale-free, direction-free); in floats the flag decision '
                'is guarded by its margin (energy_stop)',
-               'ShiftClosed: the mask of phase i + p/2 is the negated mask of phase i (cos(t + pi) = -cos t; exact in Q, rounding in floats) — '
-               'needed for c < 0, which therefore requires an even number of phases',
+               'ShiftClosed: the mask of phase i + p/2 is the negated mask of phase i — needed for c < 0, which therefore requires an even '
+               'number of phases. For the documented waveform (Mask.unitOf, which the MASKSIFT op runs on) it is a theorem '
+               '(C02.maskSift_ratio_smul_neg_cos / C07.mask_shift_closed) from the single oracle fact cos(2 pi (x + 1/2)) = -cos(2 pi x), '
+               'validated on the cosine tables by C07 stream cos_oracle (exact in Q, rounding in floats)',
                'default loc_pad_opts / mag_pad_opts; pad_width >= 1 for the envelope laws; time reversal is claimed for unrefined (integer) '
                'extrema only: with parabolic_extrema=True the loop test max < n or min >= 0 is not mirror-symmetric '
                '(C02.paddedExtrema_reverse_parabolic_witness, reproduced on the code by corpus case x=[0,2,1,3,2])']
